@@ -10,7 +10,8 @@ pub struct VtreeCase {
     pub k: u8,
     /// leaf order = stable argsort of the first k keys
     pub keys: Vec<u16>,
-    /// 0 right-linear, 1 left-linear, 2 balanced, 3 random splits
+    /// 0 right-linear, 1 left-linear, 2 balanced, 3 random splits, 4 wide root (all but 2 or 3 leaves on the left
+    /// of the root, random splits below): decision nodes with many elements live at such a root
     pub kind: u8,
     pub splits: Vec<u16>,
     /// label = index * stride + offset (stride 1, offset 0 = contiguous labels 0..k-1)
@@ -47,6 +48,11 @@ impl VtreeCase {
                 0 => 1,
                 1 => n - 1,
                 2 => n / 2,
+                4 if *it == 0 && n >= 5 => {
+                    let s = splits.first().copied().unwrap_or(0);
+                    *it += 1;
+                    n - 2 - (s & 1) as usize
+                }
                 _ => {
                     let s = splits.get(*it).copied().unwrap_or(0);
                     *it += 1;
@@ -58,7 +64,7 @@ impl VtreeCase {
             let rs = build(r, kind, splits, it);
             Shape::Node(Box::new(ls), Box::new(rs))
         }
-        build(&labels, self.kind % 4, &self.splits, &mut it)
+        build(&labels, self.kind % 5, &self.splits, &mut it)
     }
     pub fn to_vtree(&self) -> VTree {
         self.shape().to_vtree()
@@ -229,7 +235,7 @@ pub fn vtree_case_strategy(max_k: u8, allow_sparse: bool) -> BoxedStrategy<Vtree
     (
         1u8..=max_k,
         prop_oneof![2 => Just(vec![0u16; 12]), 8 => proptest::collection::vec(any::<u16>(), 12)],
-        prop_oneof![5 => Just(0u8), 3 => Just(1u8), 3 => Just(2u8), 9 => Just(3u8)],
+        prop_oneof![5 => Just(0u8), 3 => Just(1u8), 3 => Just(2u8), 9 => Just(3u8), 2 => Just(4u8)],
         proptest::collection::vec(any::<u16>(), 12),
         labels,
     )
